@@ -752,3 +752,71 @@ def bitmap_problems(glyphs, overrides, result):
             if abs(gl.originOffsetX - (adv_px - w) / 2) > 0.5 + 1e-9:
                 bad.append((name, "sbix horizontal centring", gl.originOffsetX))
     return bad
+
+
+# ---- C06 / C19 through the real command line: reuse enabled and reuse disabled both build ----
+
+
+def gen_cli_reuse(rng, i=None):
+    i = rng.randrange(4) if i is None else i
+    fmt = ["glyf_colr_1", "picosvg", "glyf_colr_0", "glyf"][i % 4]
+    glyphs = e2e.gen_glyphset(rng, n_glyphs=2, gradients=fmt in ("glyf_colr_1", "picosvg") and rng.random() < 0.5, groups=False, reuse=True)
+    # the smallest input that matters: a glyph holding two congruent rectangles
+    vb = glyphs[0].viewbox
+    x, y, w, h = vb
+    r = [(x + 0.1 * w, y + 0.1 * h), (x + 0.3 * w, y + 0.1 * h), (x + 0.3 * w, y + 0.25 * h), (x + 0.1 * w, y + 0.25 * h)]
+    glyphs[0].items.append(e2e.Shape([(round(px), round(py)) for px, py in r], e2e.Solid(e2e._rgb(rng)), 1.0))
+    glyphs[0].items.append(e2e.Shape([(round(px + 0.4 * w), round(py + 0.5 * h)) for px, py in r], e2e.Solid(e2e._rgb(rng)), 1.0))
+    for g in glyphs:
+        for sh in e2e.all_shapes(g):
+            if getattr(sh.fill, "current", False) and fmt == "glyf_colr_0":
+                sh.opacity = 1.0  # known finding F14 has its own witness
+    for k, g in enumerate(glyphs):
+        g.codepoints = (0x1F600 + k,)
+    return {"fmt": fmt, "glyphs": glyphs, "tolerances": [rng.choice([0.1, 0.05, 0.5]), -1]}
+
+
+def run_cli_reuse(fmt, glyphs, tolerances):
+    from fontTools import ttLib
+
+    src = next((p_ for p_ in sys.path if p_.endswith("/src") and os.path.isdir(os.path.join(p_, "nanoemoji"))), "/repo/src")
+    out = {}
+    with tempfile.TemporaryDirectory(prefix="verif_cli_") as d:
+        files = []
+        for g in glyphs:
+            p = os.path.join(d, "emoji_u%x.svg" % g.codepoints[0])
+            open(p, "w").write(e2e.svg_text(g))
+            files.append(os.path.basename(p))
+        env = dict(os.environ, PYTHONPATH=src, PATH="/venv/bin:" + os.environ.get("PATH", ""))
+        for tol in tolerances:
+            b = os.path.join(d, "b%s" % str(tol).replace("-", "m").replace(".", "_"))
+            cmd = [sys.executable, "-m", "nanoemoji.nanoemoji", "--build_dir", b, "--color_format", fmt, "--keep_glyph_names", f"--reuse_tolerance={tol}"] + files
+            r = subprocess.run(cmd, cwd=d, env=env, capture_output=True, text=True, timeout=900)
+            font = None
+            fp = os.path.join(b, "Font.ttf")
+            if r.returncode == 0 and os.path.exists(fp):
+                font = ttLib.TTFont(io.BytesIO(open(fp, "rb").read()), lazy=False)
+            out[tol] = {"exit": r.returncode, "font": font, "stderr": (r.stdout + r.stderr)[-600:]}
+    return out
+
+
+def cli_reuse_problems(fmt, glyphs, tolerances, result):
+    import c_e2e
+
+    bad = []
+    cfg = e2e.default_config(color_format=fmt)
+    for tol in tolerances:
+        r = result[tol]
+        if r["exit"] != 0 or r["font"] is None:
+            bad.append((tol, "the command failed", r["stderr"][-300:]))
+            continue
+        res = {"cfg": cfg, "font": r["font"]}
+        if fmt == "glyf_colr_1" or fmt == "glyf_colr_0":
+            mm = c_e2e._picture_mismatches(glyphs, res, c_e2e._colr_eval)
+        elif fmt == "picosvg":
+            mm = c_e2e._picture_mismatches(glyphs, res, c_e2e._otsvg_eval, otsvg=True)
+        else:
+            mm = []
+        if mm:
+            bad.append((tol, "picture differs from the source", mm[:2]))
+    return bad
